@@ -61,4 +61,4 @@ def run(ctx):
                          "observable state = type, size, sha256, link target, mode, mtime, owner, link count of every path of the sandbox (no atime/ctime); a metadata-only change of an outside inode that was hard-linked into the target before the restore is tolerated",
                          "errors reported by restore are ignored (the CLI continues after them)",
                          "symlink targets are relative paths to the sentinel directory/file next to the target; file system = the sandbox's ext4; root",
-                         "thorough: seeded 40% sample of the cross product (trees x environments, 'leaves' selection only for trees with a directory) with --sparse chosen by parity; quick: seeded 1% sample"])
+                         "thorough: seeded 30% sample of the cross product (trees x environments, 'leaves' selection only for trees with a directory) with --sparse chosen by parity; quick: seeded 1% sample"])
